@@ -608,6 +608,10 @@ func (c *Ctx) trCall(x *ast.CallExpr) Val {
 			cs = append(cs, eq(nm, app("store", om, v.C[0], app("select", nm, v.C[0]))))
 		}
 		return bval(and(cs...))
+	case "strOf":
+		// strOf(a, n): the string whose bytes are a[0..n) (a is a ghost array Int->Int)
+		a := c.tr(args[0])
+		return sval(a.C[0], "0", c.intT(args[1]))
 	case "freshbytes":
 		// freshbytes(s): s is a newly allocated byte slice (or nil) and no other byte memory changed
 		if c.Old == nil {
